@@ -56,7 +56,7 @@ def run_shard(mod, tier, seed, i, n, partial_out=None, work=None):
         if hasattr(mod, 'strata'):
             allst = mod.strata(tier)
             mine = allst[i::n]
-            each = max(4, n_ex // max(1, len(mine)))
+            each = max(getattr(mod, 'MIN_PER_STRATUM', 4), n_ex // max(1, len(mine)))
             for j, (name, strat) in enumerate(mine):
                 run.seed = shard_seed(seed, i) * 131 + j
                 run.classes['stratum:' + name] += 0
